@@ -1323,8 +1323,10 @@ class CParser:
                 dim = self._parse_assignment_expression()
                 self._expect("RBRACKET")
                 return make_array_decl(dim, dim_quals)
-            times_tok = self._accept("TIMES")
-            if times_tok:
+            # '[*]' (VLA of unspecified size) only when the star is directly
+            # followed by ']'; otherwise '*' starts an ordinary expression.
+            if self._peek_type() == "TIMES" and self._peek_type(2) == "RBRACKET":
+                times_tok = self._advance()
                 self._expect("RBRACKET")
                 dim = c_ast.ID(times_tok.value, self._tok_coord(times_tok))
                 return make_array_decl(dim, dim_quals)
@@ -1334,8 +1336,8 @@ class CParser:
             self._expect("RBRACKET")
             return make_array_decl(dim, dim_quals)
 
-        times_tok = self._accept("TIMES")
-        if times_tok:
+        if self._peek_type() == "TIMES" and self._peek_type(2) == "RBRACKET":
+            times_tok = self._advance()
             self._expect("RBRACKET")
             dim = c_ast.ID(times_tok.value, self._tok_coord(times_tok))
             return make_array_decl(dim, [])
